@@ -523,6 +523,9 @@ def boolean_and_simplifier(*args):
         mustbe = eq_list[0]
         if any(eq.args[0] != mustbe.args[0] for eq in eq_list):
             return claripy.false()
+        # the identity test above misses an excluded constant that differs from mustbe only in its annotations
+        if any(ne.args[0] == mustbe.args[0] for ne in ne_list):
+            return claripy.false()
         return target_var == eq_list[0]
     return flattened
 
